@@ -32,9 +32,10 @@ VARIABLES l,      \* position in T
           bad,    \* set of <<event index, property id, kind>>
           cov,    \* coverage counters: branch tag -> number of events
           vres,   \* C10: instance id -> outcome of the first variant of that operation instance
-          ctxs    \* C19: context name -> [prec, mode, err]; err (the latch) is inferred, never logged
+          ctxs,   \* C19: context name -> [prec, mode, err]; err (the latch) is inferred, never logged
+          pool    \* C18: scratch buffer -> goroutine holding it (DecPool's holder, restricted to held buffers)
 
-vars == <<l, regs, dgs, bad, cov, vres, ctxs>>
+vars == <<l, regs, dgs, bad, cov, vres, ctxs, pool>>
 
 Ev == T[l]
 
@@ -126,7 +127,8 @@ IsEv(op) == l <= Len(T) /\ Ev.op = op /\ Ev.out # "panic"
 (* a call with receiver Ev.z whose wanted outcome is w *)
 (* mismatches are stored as <<event, property, kind, deviation>>; deviation = "" unless a NAMED deviation of *)
 (* the specification (a recorded finding, see known_findings.json) reproduces the observed result        *)
-Tag(S, dev) == {<<t[1], t[2], t[3], dev>> : t \in S}
+(* inside a Par block (goroutines running concurrently) every mismatch contradicts C18: "every result equals the one obtained sequentially" *)
+Tag(S, dev) == {<<t[1], t[2], t[3], dev>> : t \in S} \cup (IF "par" \in DOMAIN Ev THEN {<<t[1], "C18", t[3], dev>> : t \in S} ELSE {})
 
 (* C10, stated directly: drivers tag the variants (aliasing shapes, receiver histories) of one operation *)
 (* instance with the same "inst"; every variant must leave the same outcome and receiver as the first.  *)
@@ -143,7 +145,7 @@ Skip == \E r \in Named : r \in DOMAIN regs /\ regs[r].form = "bad"
 StepDev(w, tags, extra, dev) ==
   /\ l' = l + 1
   /\ vres' = IF Skip THEN vres ELSE VariantNext
-  /\ ctxs' = ctxs
+  /\ ctxs' = ctxs /\ pool' = pool
   /\ bad' = IF Skip THEN bad \cup Tag(Common(Named), "")
             ELSE bad \cup Tag(MisZ(w) \cup extra, dev) \cup Tag(Common({Ev.z}) \cup VariantBad, "")
   /\ cov' = IF Skip THEN Bump({"skipped"}) ELSE Bump({Ev.op} \cup tags)
@@ -157,7 +159,7 @@ Step(w, tags) == StepX(w, tags, {})
 Observe(ok, pid, tags) ==
   /\ l' = l + 1
   /\ vres' = vres
-  /\ ctxs' = ctxs
+  /\ ctxs' = ctxs /\ pool' = pool
   /\ bad' = IF Skip THEN bad \cup Tag(Common(Named), "")
             ELSE bad \cup Tag((IF Ev.out # "ok" THEN {<<l, "C04", "panic">>} ELSE IF ok THEN {} ELSE {<<l, pid, "ret">>})
                            \cup Common({}), "")
@@ -168,7 +170,7 @@ Observe(ok, pid, tags) ==
 ObserveDev(ok, pid, tags, dev) ==
   /\ l' = l + 1
   /\ vres' = vres
-  /\ ctxs' = ctxs
+  /\ ctxs' = ctxs /\ pool' = pool
   /\ bad' = IF Skip THEN bad \cup Tag(Common(Named), "")
             ELSE bad \cup Tag(IF Ev.out # "ok" THEN {<<l, "C04", "panic">>} ELSE IF ok THEN {} ELSE {<<l, pid, "ret">>}, dev)
                      \cup Tag(Common({}), "")
@@ -188,6 +190,7 @@ TReset ==
   /\ l' = l + 1
   /\ vres' = <<>>
   /\ ctxs' = [c \in {Ev.ctxs[i] : i \in 1..Len(Ev.ctxs)} |-> CtxInit(0, 0)]
+  /\ pool' = <<>>
   /\ regs' = [r \in Named |-> Got(r)]
   /\ dgs' = Ev.dg
   /\ bad' = bad \cup Tag(IF \A r \in Named : Canonical(Ev.post[r]) /\ Got(r) = ZeroValue THEN {} ELSE {<<l, "C08", "zerovalue">>}, "")
@@ -198,7 +201,7 @@ TPanic ==
   /\ l <= Len(T) /\ Ev.out = "panic" /\ Ev.op # "Ctx.AddNilY"
   /\ l' = l + 1
   /\ vres' = vres
-  /\ ctxs' = ctxs
+  /\ ctxs' = ctxs /\ pool' = pool
   /\ bad' = bad \cup Tag({<<l, pp, "panic">> : pp \in {"C04"} \cup HomePid(Ev.op)} \cup Common(Named), "")
   /\ cov' = Bump({"panic"})
   /\ regs' = Adopt
@@ -209,7 +212,7 @@ TLoad ==
   /\ IsEv("Load")
   /\ l' = l + 1
   /\ vres' = vres
-  /\ ctxs' = ctxs
+  /\ ctxs' = ctxs /\ pool' = pool
   /\ bad' = bad \cup Tag((IF Ev.out # "ok" THEN {<<l, "C04", "panic">>} ELSE {}) \cup Common({Ev.z}), "")
   /\ cov' = Bump({"Load"})
   /\ regs' = Adopt
@@ -399,7 +402,7 @@ TGobStream ==
 (***************************************************************************)
 WordsIn(ss) == [i \in 1..Len(ss) |-> FromStr(ss[i])]
 NatObserve(ok, pid, tags) ==
-  /\ l' = l + 1 /\ vres' = vres /\ ctxs' = ctxs /\ regs' = regs /\ dgs' = dgs
+  /\ l' = l + 1 /\ vres' = vres /\ ctxs' = ctxs /\ pool' = pool /\ regs' = regs /\ dgs' = dgs
   /\ bad' = bad \cup Tag(IF Ev.out # "ok" THEN {<<l, pid, "panic">>, <<l, "C04", "panic">>} ELSE IF ok THEN {} ELSE {<<l, pid, "ret">>}, "")
   /\ cov' = Bump({Ev.op} \cup tags)
 LenClass(n) == IF n <= 1 THEN ToString(n) ELSE IF n < 10 THEN "2-9" ELSE IF n < 100 THEN "10-99" ELSE ">=100"
@@ -431,14 +434,43 @@ TKernel ==
          scalar == KName \in {"mul10WW", "div10W", "div10WW", "mulAdd10WWW"}
          okOf(res) == IF scalar THEN ScalarPost(KName, FromStr(res.c), FromStr(res.c2), a, Pow2(64))
                       ELSE KernelPost(KName, pre, WordsIn(res.mem), FromStr(res.c), a)
-     IN /\ l' = l + 1 /\ vres' = vres /\ ctxs' = ctxs /\ regs' = regs /\ dgs' = dgs
+     IN /\ l' = l + 1 /\ vres' = vres /\ ctxs' = ctxs /\ pool' = pool /\ regs' = regs /\ dgs' = dgs
         /\ bad' = bad \cup Tag(IF Ev.out # "ok" THEN {<<l, "C07", "panic">>}
                                 ELSE (IF okOf(Ev.ret.asm) THEN {} ELSE {<<l, "C07", "asm">>})
                                      \cup (IF okOf(Ev.ret.go) THEN {} ELSE {<<l, "C07", "go">>})
                                      \cup (IF Ev.ret.asm = Ev.ret.go THEN {} ELSE {<<l, "C07", "asm-vs-go">>}), "")
         /\ cov' = Bump({"K:" \o KName, "K:" \o KName \o ":" \o (IF scalar THEN "scalar" ELSE IF Ev.zo = Ev.xo THEN "inplace" ELSE "disjoint"),
                          "K:" \o KName \o ":n" \o LenClass(Ev.n)})
-NatNext == TNMul \/ TNSqr \/ TNDiv \/ TKernel
+(***************************************************************************)
+(* Concurrency (C18): the events of a Par block are the goroutines' own    *)
+(* logs (grouped by goroutine; operands are shared read-only, receivers    *)
+(* private, so every event is validated against the sequential             *)
+(* specification as usual); ParEnd carries the observation of ALL          *)
+(* registers and the pool events, which must be a behaviour of DecPool.    *)
+(***************************************************************************)
+TParBegin ==
+  /\ l <= Len(T) /\ Ev.op = "ParBegin"
+  /\ l' = l + 1 /\ UNCHANGED <<regs, dgs, bad, vres, ctxs>> /\ pool' = <<>> /\ cov' = Bump({"Par:k" \o ToString(Ev.k)})
+(* one logged pool event = one DecPool action: Get of a buffer nobody holds, Put only by the holder *)
+TPoolGet ==
+  /\ l <= Len(T) /\ Ev.op = "PoolGet"
+  /\ l' = l + 1 /\ UNCHANGED <<regs, dgs, vres, ctxs>>
+  /\ bad' = IF Ev.buf \in DOMAIN pool THEN bad \cup {<<l, "C18", "pool-double-holder", "">>} ELSE bad
+  /\ pool' = [b \in DOMAIN pool \cup {Ev.buf} |-> IF b = Ev.buf THEN Ev.g ELSE pool[b]]
+  /\ cov' = IF "PoolGet" \in DOMAIN cov THEN [cov EXCEPT !["PoolGet"] = @ + 1] ELSE Bump({"PoolGet"})
+TPoolPut ==
+  /\ l <= Len(T) /\ Ev.op = "PoolPut"
+  /\ l' = l + 1 /\ UNCHANGED <<regs, dgs, vres, ctxs>>
+  /\ bad' = IF Ev.buf \in DOMAIN pool /\ pool[Ev.buf] = Ev.g THEN bad ELSE bad \cup {<<l, "C18", "pool-put-by-non-holder", "">>}
+  /\ pool' = [b \in DOMAIN pool \ {Ev.buf} |-> pool[b]]
+  /\ cov' = IF "PoolPut" \in DOMAIN cov THEN [cov EXCEPT !["PoolPut"] = @ + 1] ELSE Bump({"PoolPut"})
+TParEnd ==
+  /\ l <= Len(T) /\ Ev.op = "ParEnd"
+  /\ l' = l + 1 /\ vres' = vres /\ ctxs' = ctxs /\ pool' = pool /\ regs' = Adopt /\ dgs' = Ev.dg
+  /\ bad' = bad \cup (IF \A r \in Named : Canonical(Ev.post[r]) /\ Got(r) = regs[r] THEN {} ELSE {<<l, "C18", "shared-or-private-register-changed", "">>})
+                \cup (IF Ev.ret.truncated \/ pool = <<>> THEN {} ELSE {<<l, "C18", "pool-buffer-never-returned", "">>})
+  /\ cov' = Bump({"ParEnd"})
+NatNext == TNMul \/ TNSqr \/ TNDiv \/ TKernel \/ TParBegin \/ TParEnd \/ TPoolGet \/ TPoolPut
 
 (***************************************************************************)
 (* Text output (C13, C11).  When the step carries "f64" the executor also  *)
@@ -545,20 +577,20 @@ CtxStep(w, aliased, tag) ==
      /\ vres' = vres
      /\ regs' = Adopt
      /\ dgs' = Ev.dg
-     /\ IF Skip THEN /\ bad' = bad \cup Tag(Common(Named), "") /\ ctxs' = ctxs /\ cov' = Bump({"skipped"})
+     /\ IF Skip THEN /\ bad' = bad \cup Tag(Common(Named), "") /\ ctxs' = ctxs /\ pool' = pool /\ cov' = Bump({"skipped"})
         ELSE IF c.err
         THEN \* latched: the operation is a no-op and returns its receiver
              /\ bad' = bad \cup Tag((IF Ev.out = "ok" /\ Ev.ret.same /\ CtxObsOK(c) THEN {} ELSE {<<l, "C19", "latched-ret">>})
                                     \cup (IF \A r \in Named : Canonical(Ev.post[r]) => Got(r) = regs[r] THEN {} ELSE {<<l, "C19", "latched-modified">>})
                                     \cup Common(Named), "")
-             /\ ctxs' = ctxs
+             /\ ctxs' = ctxs /\ pool' = pool
              /\ cov' = Bump({Ev.op, Ev.op \o ":latched"})
         ELSE \* a NaN is caught (the call returns normally) and latched; value free when the receiver is an operand (documented caveat)
              LET w1 == IF aliased THEN [w EXCEPT !.free = w.free \cup {"value", "acc"}] ELSE [w EXCEPT !.pid = {"C19"}]
                  got == IF Ev.out = "ok" /\ w.out = "nan" THEN [w1 EXCEPT !.out = "ok", !.free = {"value", "acc"}] ELSE w1
              IN /\ bad' = bad \cup Tag({<<t[1], IF t[2] \in {"C09", "C10"} THEN "C19" ELSE t[2], t[3]>> : t \in MisZ(got)} \cup (IF Ev.out = "ok" /\ Ev.ret.same /\ CtxObsOK(c) THEN {} ELSE {<<l, "C19", "ret">>})
                                        \cup Common({Ev.z}), "")
-                /\ ctxs' = [ctxs EXCEPT ![Ev.c].err = (w.out = "nan")]
+                /\ ctxs' = [ctxs EXCEPT ![Ev.c].err = (w.out = "nan")] /\ pool' = pool
                 /\ cov' = Bump({Ev.op, Ev.op \o ":" \o tag, Ev.op \o (IF w.out = "nan" THEN ":nan" ELSE ":ok"), Ev.op \o (IF aliased THEN ":aliased" ELSE ":distinct")})
 
 IsCtx(op) == IsEv("Ctx." \o op)
@@ -588,7 +620,7 @@ TCtxSet ==
 (* operations on the context itself *)
 CtxSelf(c1, ok, tag) ==
   /\ l' = l + 1 /\ vres' = vres /\ regs' = Adopt /\ dgs' = Ev.dg
-  /\ ctxs' = [k \in DOMAIN ctxs \cup {Ev.c} |-> IF k = Ev.c THEN c1 ELSE ctxs[k]]
+  /\ ctxs' = [k \in DOMAIN ctxs \cup {Ev.c} |-> IF k = Ev.c THEN c1 ELSE ctxs[k]] /\ pool' = pool
   /\ bad' = bad \cup Tag((IF Ev.out = "ok" /\ ok /\ Ev.ret.cprec = c1.prec /\ Ev.ret.cmode = c1.mode THEN {} ELSE {<<l, "C19", "ctx">>}) \cup Common({}), "")
   /\ cov' = Bump({Ev.op} \cup tag)
 TCtxNew == IsCtx("New") /\ CtxSelf(CtxInit(Ev.p, Ev.m), TRUE, {})
@@ -599,7 +631,7 @@ TCtxErr == IsCtx("Err") /\ CtxSelf([Ctx EXCEPT !.err = FALSE], Ev.ret.err = Ctx.
 
 (* factories: c.New().SetX(...) - not affected by the latch *)
 CtxFactory(w) ==
-  /\ l' = l + 1 /\ vres' = vres /\ regs' = Adopt /\ dgs' = Ev.dg /\ ctxs' = ctxs
+  /\ l' = l + 1 /\ vres' = vres /\ regs' = Adopt /\ dgs' = Ev.dg /\ ctxs' = ctxs /\ pool' = pool
   /\ bad' = bad \cup Tag(MisZ([w EXCEPT !.pid = {"C19"}]) \cup Common({Ev.z}), "")
   /\ cov' = Bump({Ev.op})
 TCtxNewDec == IsCtx("NewDec") /\ CtxFactory(Outcome("ok", CtxNew(Ctx), {}, {"C19"}))
@@ -614,7 +646,7 @@ TCtxNewRat ==
 TCtxNil ==
   /\ l <= Len(T) /\ Ev.op = "Ctx.AddNilY"
   /\ l' = l + 1 /\ vres' = vres /\ regs' = Adopt /\ dgs' = Ev.dg
-  /\ ctxs' = ctxs
+  /\ ctxs' = ctxs /\ pool' = pool
   /\ bad' = bad \cup Tag(IF Ctx.err THEN (IF Ev.out = "ok" THEN {} ELSE {<<l, "C19", "latched-ret">>})
                           ELSE (IF Ev.out = "panic" THEN {} ELSE {<<l, "C19", "swallowed-panic">>}), "")
   /\ cov' = Bump({"Ctx.AddNilY:" \o Ev.out})
@@ -668,7 +700,7 @@ TPreds14 ==
 CoreNext == TReset \/ TPanic \/ TLoad \/ TAdd \/ TSub \/ TMul \/ TQuo \/ TFMA \/ TSqrt \/ TNeg \/ TAbs \/ TSet \/ TCopy \/ TSetPrec \/ TSetMode
             \/ TSetInf \/ TNew \/ TSetInt64 \/ TSetUint64 \/ TNewDecimal \/ TSetInt \/ TSetRat \/ TInt64 \/ TUint64 \/ TInt \/ TRat \/ TPreds14 \/ TSetFloat64 \/ TSetFloat \/ TFloat64 \/ TFloat32 \/ TFloat \/ TGobEncode \/ TGobDecode \/ TGobMutate \/ TGobRoundTrip \/ TGobStream \/ TSetMantExp \/ TMantExp \/ TSetBitsExp \/ TSetBitsExpSelf \/ TBitsExp \/ TCmp \/ TPreds
 
-TraceInit == l = 1 /\ regs = <<>> /\ dgs = <<>> /\ bad = {} /\ cov = <<>> /\ vres = <<>> /\ ctxs = <<>>
+TraceInit == l = 1 /\ regs = <<>> /\ dgs = <<>> /\ bad = {} /\ cov = <<>> /\ vres = <<>> /\ ctxs = <<>> /\ pool = <<>>
 TextNext == TText \/ TAppend \/ TString \/ TMarshalText \/ TMarshalJSON \/ TFormat \/ TParse \/ TSetString \/ TUnmarshalText
             \/ TUnmarshalJSON \/ TParseDecimal \/ TScan \/ TTextParse
 TraceNext == CoreNext \/ CtxNext \/ TextNext \/ NatNext
